@@ -136,7 +136,7 @@ func cmdPullOps(args []string) error {
 			return err
 		}
 		cs := &countStore{qstore: be.store()}
-		pc := jpcfg{MaxBatch: pick(r, []int{100, 100, 3, 5, 0, 250}), DefaultTTL: int64(30 * time.Second), MaxTTL: pick(r, []int64{0, 0, int64(20 * time.Second)}),
+		pc := jpcfg{MaxBatch: pick(r, []int{100, 100, 3, 5, 0, 250}), DefaultTTL: pick(r, []int64{int64(30 * time.Second), int64(30 * time.Second), int64(45 * time.Second), int64(2 * time.Minute)}), MaxTTL: pick(r, []int64{0, 0, int64(20 * time.Second)}),
 			RecentTTL: pick(r, []int64{int64(2 * time.Minute), int64(10 * time.Second), int64(10 * time.Second), 0}), RecentCap: pick(r, []int{20000, 20000, 3, 2, 0})}
 		srv := pullapi.NewServer(cs)
 		srv.MaxBatch, srv.DefaultLeaseTTL, srv.MaxLeaseTTL = pc.MaxBatch, time.Duration(pc.DefaultTTL), time.Duration(pc.MaxTTL)
@@ -302,7 +302,10 @@ func cmdPullOps(args []string) error {
 					resp.Status = 200
 					if op.Route == "/r" && op.Batch >= 0 && r.chance(35) {
 						via = "grpc"
-						req := &workerapipb.DequeueRequest{Endpoint: "/pull/r", Batch: uint32(op.Batch), MaxWait: durationpb.New(0)}
+						req := &workerapipb.DequeueRequest{Endpoint: "/pull/r", Batch: uint32(op.Batch)}
+						if r.chance(50) {
+							req.MaxWait = durationpb.New(0) // present or absent: the default wait is zero either way
+						}
 						if op.TTL != nil {
 							req.LeaseTtl = durationpb.New(time.Duration(*op.TTL))
 						}
@@ -357,7 +360,7 @@ func cmdPullOps(args []string) error {
 						single(srv.NackSingle("/r", op.L, op.Dead, op.Reason, time.Duration(op.Delay)))
 					}
 				case 6:
-					op = jpop{T: "extend", L: someLease(), By: pick(r, []int64{int64(10 * time.Second), int64(1250 * time.Millisecond), int64(time.Second), int64(500 * time.Millisecond), int64(999 * time.Millisecond), 1, 0, -int64(time.Second)})}
+					op = jpop{T: "extend", L: someLease(), By: pick(r, []int64{int64(10 * time.Second), int64(30 * time.Second), int64(5 * time.Minute), int64(1250 * time.Millisecond), int64(time.Second), int64(500 * time.Millisecond), int64(999 * time.Millisecond), 1, 0, -int64(time.Second)})}
 					via = pick(r, []string{"ops", "http", "grpc"})
 					if op.By <= 0 {
 						via = "ops"
